@@ -60,6 +60,11 @@ class Contract:
     # ghost lemma calls: (lemma name, [argument expressions over locals/params]) instantiated at
     # every return and at every construction of an object with a class invariant
     calls: list = dataclasses.field(default_factory=list)
+    # a method overridden in subclasses: callers on a receiver of this (base) kind may not rely
+    # on the ensures of this body; they get `virtual_ensures` (default: nothing)
+    virtual: bool = False
+    virtual_ensures: list[str] = dataclasses.field(default_factory=list)
+    may_raise: dict = dataclasses.field(default_factory=dict)  # exception -> condition under which it MAY be raised
 
     @property
     def key(self):
@@ -78,6 +83,7 @@ class Lemma:
     triggers: list[str] = dataclasses.field(default_factory=list)
     uses: list[str] = dataclasses.field(default_factory=list)
     calls: list = dataclasses.field(default_factory=list)  # ground instances of other lemmas: (name, [arg exprs])
+    terms: list = dataclasses.field(default_factory=list)  # expressions whose terms are introduced (t == fresh): triggers unfolding, adds no fact
     step: int = -1  # induction hypothesis at induct + step ...
     decreases: str | None = None  # ... admissible because this measure is >= 0 and smaller there
 
@@ -126,6 +132,9 @@ def contract(
     uses=(),
     body_requires=(),
     calls=(),
+    virtual=False,
+    virtual_ensures=(),
+    may_raise=None,
 ):
     if cases is None:
         cases = [dict(when="True", returns=returns, ensures=list(ensures))]
@@ -150,13 +159,18 @@ def contract(
         uses=list(uses),
         body_requires=list(body_requires),
         calls=list(calls),
+        virtual=virtual,
+        virtual_ensures=list(virtual_ensures),
+        may_raise=dict(may_raise or {}),
     )
     CONTRACTS[qualname] = c
     return c
 
 
-def lemma(name, vars, requires=(), ensures=(), props=(), induct=None, hints=(), triggers=(), uses=(), step=-1, decreases=None, calls=()):
-    LEMMAS[name] = Lemma(name, dict(vars), list(requires), list(ensures), list(props), induct, list(hints), list(triggers), list(uses), list(calls), step, decreases)
+def lemma(name, vars, requires=(), ensures=(), props=(), induct=None, hints=(), triggers=(), uses=(), step=-1, decreases=None, calls=(), terms=()):
+    if hints:
+        raise ValueError("lemma hints are assumed facts and are not accepted; use calls= (proved lemmas) or terms=")
+    LEMMAS[name] = Lemma(name, dict(vars), list(requires), list(ensures), list(props), induct, [], list(triggers), list(uses), list(calls), list(terms), step, decreases)
 
 
 def reset():
